@@ -242,6 +242,22 @@ def run(R):
     sends = [c for c in q.calls(g1.node) if q.call_name(c) == "self.generator.send"]
     R.check(len(sends) == 1 and q.src(sends[0].args[0]) == q.param_names(g1.node)[1], "C17.VALUE-FLOW", g1.qualname, R.site(g1),
             "_get_one_value sends its argument into the underlying generator", "_get_one_value does not send its argument")
+    # a Value that needs no await is delivered as a fresh ConstFuture around the payload object itself (identity, not equality:
+    # a memo keyed by the payload would hand back an equal object produced earlier - 1.0 for True, another generator's row)
+    scfg_ = cfg_of(send)
+    vtests = [n for n in scfg_.nodes if n.kind == "test" and q.atom_test(n.ast)[0] == "isinstance" and q.atom_test(n.ast)[1][1].split(".")[-1] == "Value"]
+    for t in vtests:
+        k_, s_, pos_ = q.atom_test(t.ast)
+        fv = s_[0]
+        starts = [e.dst for e in scfg_.out_edges(t.id, N) if e.label == ("T" if pos_ else "F")]
+        rets_ = [n for n in scfg_.nodes if n.kind == "stmt" and isinstance(n.ast, ast.Return)]
+        good = [n for n in rets_ if isinstance(n.ast.value, ast.Call) and q.call_name(n.ast.value) in ("ConstFuture", "futures.ConstFuture")
+                and [q.src(a) for a in n.ast.value.args] == ["%s.value" % fv] and not n.ast.value.keywords]
+        p = scfg_.find_path(starts, [scfg_.exit], N, cut_nodes=good)
+        R.check(p is None and good, "C17.VALUE-FLOW", send.qualname + ":const", R.site(send, t.ast),
+                "a ready Value is delivered as ConstFuture(%s.value): the payload object itself" % fv,
+                "a ready Value is not delivered as a fresh ConstFuture(%s.value) on every path (shared / memoised futures confuse payloads that are equal but "
+                "not identical)" % fv, scfg_.fmt_path(p) if p else None)
     # VALUE-FLOW in _send_inner
     calls = [c for c in q.calls(si.node) if q.call_name(c) == "self._get_one_value"]
     R.need(len(calls) == 1 and isinstance(calls[0].args[0], ast.Name), "idiom: _send_inner does not call _get_one_value(<name>) once")
